@@ -14,3 +14,7 @@ package host
 //@ keyfn RoutingRulesKey() = routingRules()
 //@ subkeyfn ClientStateKey() = clientState()
 //@ subkeyfn ConsensusStateKey(h) = consState(h.GetRevisionNumber(): u64, h.GetRevisionHeight(): u64)
+// the string forms of the same keys (used as ICS-23 / storage paths on the counterparty)
+//@ strkeyfn PacketCommitmentPath(s, d, n) = commit(s: str, d: str, n: u64)
+//@ strkeyfn PacketAcknowledgementPath(s, d, n) = ack(s: str, d: str, n: u64)
+//@ strkeyfn CleanPacketCommitmentPath(s, d) = cleanPt(s: str, d: str)
